@@ -43,6 +43,7 @@ package uu
 //@   loop 0 unroll 6
 
 //@ func DefaultParser
+//@   ensures [C17.input] heapSame()
 //@   mode bv
 //@   ensures [C05.accept] err == nil <==> withinLimit(len(input)) && uuText(input, r)
 //@   ensures [C05.value] err == nil ==> id.Higher == hi(input) && id.Lower == lo(input)
@@ -103,6 +104,7 @@ package uu
 //@   ensures fresh(r0)
 
 //@ func (*ID).UnmarshalText
+//@   ensures [C17.input] heapSame()
 //@   mode bv
 //@   ensures [C17.recv] err != nil ==> *i == old(*i)
 //@   ensures [C05.accept] err == nil <==> withinLimit(len(data)) && uuText(data, 0)
